@@ -89,6 +89,7 @@ def process(ck, designs, n_ext, ncycles):
   for (kind, d, run, res), rep in zip(meta, replies):
     cycles, ref_trace, runs, edges = res
     src = d.source()
+    ck.extra_cov.setdefault('sample_design_source', src)
     if kind == 'check':
       parts = rep.split()
       if parts[1] != '1' or parts[2] != '1':
@@ -121,7 +122,7 @@ def process(ck, designs, n_ext, ncycles):
       continue
     ck.count(case, nontrivial=(len(order) >= 2 or len(fo) >= 1))
     ck.hist('flow', label); ck.hist('comb_blocks', len(order)); ck.hist('ff_blocks', len(fo))
-    ck.hist('children', len(d.comps[''].get('children', [])))
+    ck.hist('components', len(d.comps))
     got = rtlgen.parse_sim_reply(rep)
     if got != tr:
       if isinstance(got, tuple):
